@@ -149,12 +149,12 @@ Theorem leaf_parses_back k w xs st rab rest :
   (forall n, In n (slot_vars xs) -> known_name st n = false) ->
   toks st = map (slot_token k) xs ++ rab :: rest -> t_typ rab = TRAB ->
   exists st', parse_numeric floats (nk_of k w) st = (IOk (ILeaf k w xs), st') /\
-              toks st' = rab :: rest /\ errs st' = errs st /\ warns st' = warns st /\ names_char st st' (slot_vars xs).
+              toks st' = rab :: rest /\ errs st' = errs st /\ warns st' = warns st /\ msgs st' = msgs st /\ names_char st st' (slot_vars xs).
 Proof.
   intros Hk Hf Hb Hs Hw Hv Hn Hfresh Ht Hr. unfold parse_numeric, take_values. rewrite Ht, (value_tokens_slots k rab rest Hr xs).
   set (st0 := {| toks := rab :: rest; names := names st; ecount := ecount st; errs := errs st; warns := warns st; msgs := msgs st; crashed := crashed st |}).
   assert (Hnd : nodupb (slot_vars xs) = true) by (unfold names_ok in Hn; apply andb_true_iff in Hn as [_ Hn]; exact Hn).
-  destruct (value_args_slots k w Hk Hf xs st0 Hb Hv Hnd Hfresh) as [st' [E [H1 [H2 [H3 [_ [_ H6]]]]]]].
+  destruct (value_args_slots k w Hk Hf xs st0 Hb Hv Hnd Hfresh) as [st' [E [H1 [H2 [H3 [H4 [_ H6]]]]]]].
   rewrite E.
   assert (Hbuild : build (nk_of k w) (map (slot_arg k w []) xs) = Some (ILeaf k w xs)).
   { destruct k; try congruence; cbn [nk_of build]; unfold new_int, new_uint, new_binary, new_boolean;
@@ -186,7 +186,7 @@ Theorem leaf_item_parses_back rec_list k w xs st rest :
   (forall n, In n (slot_vars xs) -> known_name st n = false) ->
   toks st = leaf_tokens k w xs ++ rest ->
   exists st', parse_item_body floats rec_list st = (Some (ILeaf k w xs), st') /\
-              toks st' = rest /\ errs st' = errs st /\ warns st' = warns st /\ names_char st st' (slot_vars xs).
+              toks st' = rest /\ errs st' = errs st /\ warns st' = warns st /\ msgs st' = msgs st /\ names_char st st' (slot_vars xs).
 Proof.
   intros Hk Hf Hb Hs Hw Hv Hn Hfresh Ht.
   destruct (nk_of_leaf_tag k w Hk Hf) as [HL [HA Hnk]].
@@ -208,14 +208,14 @@ Proof.
   set (st3 := {| toks := map (slot_token k) xs ++ mk TRAB [x3e] 0 :: rest; names := names st; ecount := ecount st;
                  errs := errs st; warns := warns st; msgs := msgs st; crashed := crashed st |}).
   destruct (leaf_parses_back k w xs st3 (mk TRAB [x3e] 0) rest Hk Hf Hb Hs Hw Hv Hn Hfresh eq_refl eq_refl)
-    as [st' [E [H1 [H2 [H3 H4]]]]].
+    as [st' [E [H1 [H2 [H3 [H5 H4]]]]]].
   match goal with |- context [parse_numeric floats (nk_of k w) ?s] => change s with st3 end.
   rewrite E. cbv beta iota zeta. cbn [item_size_for_check size].
   assert (Hse : size_error (Z.of_nat (length xs)) (Z.of_nat (length xs)) (Z.of_nat (length xs)) = false).
   { unfold size_error. destruct (Z.eqb_spec (Z.of_nat (length xs)) (-1)); [lia|].
     destruct (Z.leb_spec (Z.of_nat (length xs)) (Z.of_nat (length xs))); [reflexivity|lia]. }
   rewrite Hse. destruct (0 <=? Z.of_nat (length xs)); cbn [andb]; rewrite H1; cbn [typ_is t_typ mk];
-  (eexists; split; [reflexivity|]; cbn [toks errs warns]; rewrite ?H1; cbn [tl]; repeat split; try assumption;
+  (eexists; split; [reflexivity|]; cbn [toks errs warns msgs]; rewrite ?H1; cbn [tl]; repeat split; try assumption;
    intro m; exact (H4 m)).
 Qed.
 
@@ -302,7 +302,7 @@ Definition item_goal (f : nat) : Prop := forall t st rest,
   (forall n, In n (vars t) -> known_name st n = false) ->
   toks st = item_tokens t ++ rest ->
   exists st', parse_item floats f st = (Some t, st') /\ toks st' = rest /\ errs st' = errs st /\ warns st' = warns st /\
-              names_char st st' (vars t).
+              msgs st' = msgs st /\ names_char st st' (vars t).
 
 Definition list_goal (f : nat) : Prop := forall cs st acc count rest,
   Forall child_ok cs -> nodupb (flat_map cvars cs) = true ->
@@ -312,7 +312,7 @@ Definition list_goal (f : nat) : Prop := forall cs st acc count rest,
   exists st', parse_list floats f st acc count =
                 (match new_list (acc ++ map gv cs) with Some l => IOk l | None => IPanic end, st') /\
               toks st' = mk TRAB [x3e] 0 :: rest /\ errs st' = errs st /\ warns st' = warns st /\
-              names_char st st' (flat_map cvars cs).
+              msgs st' = msgs st /\ names_char st st' (flat_map cvars cs).
 
 Lemma list_step f : item_goal f -> list_goal f -> list_goal (S f).
 Proof.
@@ -328,10 +328,10 @@ Proof.
     + (* a nested list *)
       cbn [child_tokens] in Ht, Hlen. rewrite <- app_assoc in Ht.
       destruct (HI (IList xs) st (flat_map child_tokens cs ++ mk TRAB [x3e] 0 :: rest) Hc ltac:(lia)
-                  ltac:(intros n Hn; apply Hfresh; apply in_or_app; left; exact Hn) Ht) as [st1 [E1 [T1 [E1e [E1w N1]]]]].
+                  ltac:(intros n Hn; apply Hfresh; apply in_or_app; left; exact Hn) Ht) as [st1 [E1 [T1 [E1e [E1w [E1m N1]]]]]].
       unfold parse_list_body, peek. rewrite Ht. cbn [item_tokens app t_typ mk]. rewrite E1.
       assert (Hlen' : (length (flat_map child_tokens cs) + 1 <= f)%nat) by (cbn [item_tokens app length] in Hlen; lia).
-      destruct (HL cs st1 (acc ++ [GItem (IList xs)]) (count + 1) rest Hcs Hnd' Hlen') as [st' [E2 [T2 [E2e [E2w N2]]]]].
+      destruct (HL cs st1 (acc ++ [GItem (IList xs)]) (count + 1) rest Hcs Hnd' Hlen') as [st' [E2 [T2 [E2e [E2w [E2m N2]]]]]].
       { intros n Hn. rewrite (N1 n), (Hfresh n) by (apply in_or_app; right; exact Hn). cbn [orb]. apply Hdisj. exact Hn. }
       { exact T1. }
       rewrite E2. rewrite <- app_assoc. cbn [app map gv]. exists st'. repeat split; try congruence.
@@ -343,7 +343,7 @@ Proof.
                      errs := errs st; warns := warns st; msgs := msgs st; crashed := crashed st |}).
       assert (Hk : known_name st0 n = false) by (apply (Hfresh n); left; reflexivity).
       rewrite Hk.
-      destruct (HL cs (add_name st0 n) (acc ++ [GStr n]) (count + 1) rest Hcs Hnd' ltac:(cbn [length] in Hlen; lia)) as [st' [E2 [T2 [E2e [E2w N2]]]]].
+      destruct (HL cs (add_name st0 n) (acc ++ [GStr n]) (count + 1) rest Hcs Hnd' ltac:(cbn [length] in Hlen; lia)) as [st' [E2 [T2 [E2e [E2w [E2m N2]]]]]].
       { intros m Hm. subst st0. unfold known_name, add_name. cbn [names existsb].
         pose proof (Hfresh m (or_intror Hm)) as Hf. unfold known_name in Hf. rewrite Hf, orb_false_r.
         pose proof (Hdisj m Hm) as Hd. cbn [cvars existsb] in Hd. rewrite orb_false_r in Hd. exact Hd. }
@@ -354,10 +354,10 @@ Proof.
     + (* a value item *)
       cbn [child_tokens] in Ht, Hlen. rewrite <- app_assoc in Ht.
       destruct (HI (ILeaf k w ys) st (flat_map child_tokens cs ++ mk TRAB [x3e] 0 :: rest) Hc ltac:(lia)
-                  ltac:(intros n Hn; apply Hfresh; apply in_or_app; left; exact Hn) Ht) as [st1 [E1 [T1 [E1e [E1w N1]]]]].
+                  ltac:(intros n Hn; apply Hfresh; apply in_or_app; left; exact Hn) Ht) as [st1 [E1 [T1 [E1e [E1w [E1m N1]]]]]].
       unfold parse_list_body, peek. rewrite Ht. cbn [item_tokens leaf_tokens app t_typ mk]. rewrite E1.
       assert (Hlen' : (length (flat_map child_tokens cs) + 1 <= f)%nat) by (cbn [item_tokens leaf_tokens app length] in Hlen; lia).
-      destruct (HL cs st1 (acc ++ [GItem (ILeaf k w ys)]) (count + 1) rest Hcs Hnd' Hlen') as [st' [E2 [T2 [E2e [E2w N2]]]]].
+      destruct (HL cs st1 (acc ++ [GItem (ILeaf k w ys)]) (count + 1) rest Hcs Hnd' Hlen') as [st' [E2 [T2 [E2e [E2w [E2m N2]]]]]].
       { intros n Hn. rewrite (N1 n), (Hfresh n) by (apply in_or_app; right; exact Hn). cbn [orb]. apply Hdisj. exact Hn. }
       { exact T1. }
       rewrite E2. rewrite <- app_assoc. cbn [app map gv]. exists st'. repeat split; try congruence.
@@ -409,7 +409,7 @@ Proof.
     set (st3 := {| toks := flat_map child_tokens xs ++ mk TRAB [x3e] 0 :: rest; names := names st; ecount := ecount st;
                    errs := errs st; warns := warns st; msgs := msgs st; crashed := crashed st |}).
     destruct (HL xs st3 [] 0 rest Hch Hnd Hcl Hfresh eq_refl)
-      as [st' [E [T [Ee [Ew N]]]]].
+      as [st' [E [T [Ee [Ew [Em N]]]]]].
     rewrite E. cbn [app]. rewrite Hnew. cbv beta iota zeta. cbn [item_size_for_check size].
     assert (Hse : size_error (Z.of_nat (length xs)) 0 (-1) = false).
     { unfold size_error. cbn [Z.eqb]. destruct (Z.ltb_spec (Z.of_nat (length xs)) 0); [lia|reflexivity]. }
@@ -425,7 +425,7 @@ Proof.
     set (st3 := {| toks := flat_map child_tokens xs ++ mk TRAB [x3e] 0 :: rest; names := names st; ecount := ecount st;
                    errs := errs st; warns := warns st; msgs := msgs st; crashed := crashed st |}).
     destruct (HL xs st3 [] 0 rest Hch Hnd Hcl Hfresh eq_refl)
-      as [st' [E [T [Ee [Ew N]]]]].
+      as [st' [E [T [Ee [Ew [Em N]]]]]].
     rewrite E. cbn [app]. rewrite Hnew. cbv beta iota zeta. cbn [item_size_for_check size].
     assert (Hse : size_error (Z.of_nat (length xs)) (Z.of_nat (length xs)) (Z.of_nat (length xs)) = false).
     { unfold size_error. destruct (Z.eqb_spec (Z.of_nat (length xs)) (-1)); [lia|].
@@ -453,7 +453,7 @@ Theorem item_parses_back t st rest :
   printable t -> (forall n, In n (vars t) -> known_name st n = false) ->
   toks st = item_tokens t ++ rest ->
   exists st', parse_item floats (S (length (toks st))) st = (Some t, st') /\ toks st' = rest /\
-              errs st' = errs st /\ warns st' = warns st /\ names_char st st' (vars t).
+              errs st' = errs st /\ warns st' = warns st /\ msgs st' = msgs st /\ names_char st st' (vars t).
 Proof.
   intros Hp Hfresh Ht. apply (proj1 (goals (S (length (toks st)))) t st rest Hp); [|exact Hfresh|exact Ht].
   rewrite Ht, app_length. lia.
